@@ -253,7 +253,7 @@ def judge(c):
             stats["held_builds"] = stats.get("held_builds", 0) + 1
         elif f[0] == "release":
             sh.held = False
-        if f[0] != "q" or len(f) != 9:
+        if f[0] != "q" or len(f) not in (9, 10):
             if impl != model:
                 mism.append(i)
             continue
@@ -315,7 +315,7 @@ def spec_violated(rep):
             sh.put(f[1], int(f[2]), int(f[3]), int(f[4]), None)
         elif f[0] == "del" and len(f) == 2:
             sh.delete(f[1])
-        elif f[0] == "q" and len(f) == 9 and i == last:
+        elif f[0] == "q" and len(f) in (9, 10) and i == last:
             r = split_reply(impl)
             if impl.startswith("conc-diff"):
                 return "`%s`: concurrent first queries on a not yet built bucket saw a different answer than a lone caller: %s" % (op, impl)
